@@ -67,10 +67,13 @@ type Case struct {
 	StateID        uint32   `json:"state_id,omitempty"`
 	Firmware       uint32   `json:"firmware,omitempty"`
 	// SharedBacking: the three application lists handed to the Client are sub-slices of one array.
-	SharedBacking bool     `json:"shared_backing,omitempty"`
-	Layout        int      `json:"layout,omitempty"` // order of the lists in that array
-	Script        []string `json:"script"`           // reaction to transmission 1, 2, ... (missing entries: silence)
-	Extras        []string `json:"extras,omitempty"`
+	SharedBacking bool `json:"shared_backing,omitempty"`
+	Layout        int  `json:"layout,omitempty"` // order of the lists in that array
+	// Literal: the application builds the AVPs it hands to the client as struct literals
+	// (&diam.AVP{Code, Flags, Data}; no constructor ran, the Length field is zero) - what Marshal does too.
+	Literal bool     `json:"literal,omitempty"`
+	Script  []string `json:"script"` // reaction to transmission 1, 2, ... (missing entries: silence)
+	Extras  []string `json:"extras,omitempty"`
 }
 
 func (c Case) interval() time.Duration { return time.Duration(c.IntervalMs) * time.Millisecond }
@@ -204,6 +207,25 @@ func runOnce(c Case) result {
 	if c.VSAuth {
 		cli.VendorSpecificApplicationID = append(cli.VendorSpecificApplicationID, diam.NewAVP(avp.VendorSpecificApplicationID, avp.Mbit, 0, &diam.GroupedAVP{AVP: []*diam.AVP{
 			diam.NewAVP(avp.VendorID, avp.Mbit, 0, datatype.Unsigned32(10415)), diam.NewAVP(avp.AuthApplicationID, avp.Mbit, 0, datatype.Unsigned32(16777251))}}))
+	}
+	if c.Literal {
+		var lit func(a *diam.AVP) *diam.AVP
+		lit = func(a *diam.AVP) *diam.AVP {
+			n := &diam.AVP{Code: a.Code, Flags: a.Flags, VendorID: a.VendorID, Data: a.Data}
+			if g, ok := a.Data.(*diam.GroupedAVP); ok {
+				ng := &diam.GroupedAVP{}
+				for _, x := range g.AVP {
+					ng.AVP = append(ng.AVP, lit(x))
+				}
+				n.Data = ng
+			}
+			return n
+		}
+		for _, l := range [][]*diam.AVP{cli.AuthApplicationID, cli.AcctApplicationID, cli.VendorSpecificApplicationID} {
+			for i := range l {
+				l[i] = lit(l[i])
+			}
+		}
 	}
 	if c.SharedBacking {
 		// the application cut its three lists out of ONE array (in one of the six orders, with room
@@ -525,6 +547,7 @@ func genCase(t *rapid.T) Case {
 	}
 	c.SharedBacking = rapid.IntRange(0, 2).Draw(t, "shared-backing") == 0
 	c.Layout = rapid.IntRange(0, 5).Draw(t, "layout")
+	c.Literal = rapid.IntRange(0, 3).Draw(t, "literal-avps") == 0
 	n := rapid.IntRange(0, c.MaxRetransmits+1).Draw(t, "silent-first")
 	for i := 0; i < n; i++ {
 		c.Script = append(c.Script, rapid.SampledFrom([]string{silence, silence, notCEA}).Draw(t, "no-reply"))
@@ -545,6 +568,9 @@ func classify(c Case) (bool, []string) {
 	}
 	if c.SharedBacking {
 		cl = append(cl, "application-lists-share-one-array")
+	}
+	if c.Literal {
+		cl = append(cl, "application-avps-built-as-struct-literals")
 	}
 	react := silence
 	if k-1 < len(c.Script) {
